@@ -37,6 +37,12 @@ CHECKS = {
         note="Trusted: pyvc, z3, eth_hash keccak, the grammar of Forge-std assert forms written in the sidecar. Assumed: calldata extractors replaced by their contracts (ByteVec slicing not proved); bytes/array lengths from a small set (contents symbolic); Exec.check abstracted by its answer; is_global_fail_set / nested-call propagation not under contract.",
         technique="ground table obligations + AST symbolic execution (pyvc) with callee contracts, z3",
     ),
+    "C05": dict(
+        text="Deductive: the verdict if/elif chain of run_test (taken from the AST) is executed with symbolic non-negative counts and its exit code proved equal to the verdict table for ALL (#sat, #err, #unknown, #stuck, #normal): PASS iff nothing failed and some path succeeded, else FAIL > ERROR > TIMEOUT > STUCK > REVERT_ALL; the counts are read only through Counter over ctx.solver_outputs (permutation invariant, so the verdict depends on the multiset of outcomes only); PASS = 0 and every other code non-zero; solve_low_level maps a TimeoutExpired to unknown, never unsat. SolverOutput.from_result is checked over a listed family of solver outputs (exact first line only; empty/garbage/prefix/case variants are err).",
+        ref="DESIGN.md 4/C05",
+        note="Trusted: pyvc, z3, the verdict table transcription. Assumed: Counter semantics; one element of solver_outputs per submitted job regardless of completion order (thread pool + GIL atomicity); not under contract: _solve_end_to_end_callback, early-exit, stuck confirmation, _main exit code. from_result obligations cover the listed output family, not all strings.",
+        technique="fragment VCs generated from the AST (pyvc) over symbolic counts, z3 LIA; ground family for string classification",
+    ),
 }
 
 NOT_APPLICABLE = {}
